@@ -96,13 +96,14 @@ def check_case(ctx, case):
     tkw = dict(kw)
     if case.get('directional'):
         tkw.update(case['directional'])
+        tkw.pop('fit_method', None)        # DirectionalVariogram does not accept fit_method=None
     try:
         with quiet():
             table = skgstat.cross_variograms(coords, vals, **tkw)
             obs = [[(np.asarray(v.bins, float), np.asarray(v.bin_count), np.asarray(v.experimental, float))
                     for v in row] for row in table]
-    except ValueError as e:
-        ctx.reject('table-ValueError:' + str(e)[:40])
+    except (ValueError, RuntimeError) as e:
+        ctx.reject('table-%s:' % type(e).__name__ + str(e)[:40])
         return
     for i in range(N):
         for j in range(i + 1, N):
@@ -112,8 +113,13 @@ def check_case(ctx, case):
                     i, j, j, i, a[2].tolist(), b[2].tolist()), case)
     Base = skgstat.DirectionalVariogram if case.get('directional') else Variogram
     for i in range(N):
+        try:
+            with quiet():
+                Vi = Base(coords, vals[:, i], **tkw)
+        except (ValueError, RuntimeError) as e:
+            ctx.reject('table-diagonal-%s' % type(e).__name__)
+            continue
         with quiet():
-            Vi = Base(coords, vals[:, i], **tkw)
             ref = (np.asarray(Vi.bins, float), np.asarray(Vi.bin_count), np.asarray(Vi.experimental, float))
         a = obs[i][i]
         if not (all_close(a[0], ref[0], rel=0) and a[1].tolist() == ref[1].tolist() and all_close(a[2], ref[2], rel=1e-12)):
@@ -131,8 +137,11 @@ def gen(ctx):
     for k in range(N - 1):
         cols.append(cols[0] * rng.uniform(-1, 1) + rng.normal(0, 1.5, size=n) + rng.uniform(-5, 5))
     case = dict(coords=base['coords'], table=np.column_stack(cols).tolist(), kw=base['kw'], kind=base['kind'])
-    if directional_available() and rng.random() < 0.3 and not (isinstance(base['kw']['maxlag'], float) and base['kw']['maxlag'] >= 1):
+    if directional_available() and rng.random() < 0.4 and not (isinstance(base['kw']['maxlag'], float) and base['kw']['maxlag'] >= 1):
         case['directional'] = dict(azimuth=float(rng.choice([0, 45, 90, -30])), tolerance=float(rng.choice([45, 90, 120])))
+        if rng.random() < 0.4:
+            # only the azimuth is given (0 = East is a direction like any other): the directional base class still applies
+            case['directional'] = dict(azimuth=[0, 0.0, 45][int(rng.integers(0, 3))])
     return case
 
 
@@ -145,8 +154,7 @@ def directional_available():
     if _dir is None:
         try:
             with quiet():
-                skgstat.DirectionalVariogram(np.random.default_rng(0).uniform(0, 10, (12, 2)),
-                                             np.arange(12.0), fit_method=None)
+                skgstat.DirectionalVariogram(np.random.default_rng(0).uniform(0, 10, (12, 2)), np.arange(12.0))
             _dir = True
         except Exception:
             _dir = False
